@@ -55,6 +55,12 @@ SYN = [
      'patterns': [('Cd', 'Cd', 'fragment a{C? labeled c1 C? labeled c2 double bond to c1}'), ('C', 'C', 'fragment a{C? labeled c1}'),
                   ('H', 'none', 'fragment a{H? labeled h1}'), ('O', 'O', 'fragment a{O? labeled o1}')],
      'descr': [('pairs', 'fragment a{C? labeled c1 C? labeled c2 single bond to c1}')], 'remaps': {}, 'mols': ['CC', 'C=C', 'CCC', 'CCO', 'C1CC1']},
+    # two patterns that carry the SAME centre name (and differ in the peripheral name) meet on one atom: still "several" (batch 13)
+    {'name': 'syn_same_centre',
+     'patterns': [('C', 'C', 'fragment a{C labeled c1}'),
+                  ('C', 'Cx', 'fragment a{C labeled c1 C? labeled c2 single bond to c1 C? labeled c3 single bond to c1}'),
+                  ('H', 'H', 'fragment a{H labeled h1}'), ('O', 'O', 'fragment a{O labeled o1}')],
+     'descr': [], 'remaps': {}, 'mols': ['C', 'CC', 'CCC', 'CC(C)C', 'CCO', 'CCCC', 'C1CC1', 'COC']},
     {'name': 'syn_remaps',
      'patterns': [('C', 'C', 'fragment a{C labeled c1}'), ('H', 'none', 'fragment a{H labeled h1}'), ('O', 'O', 'fragment a{O labeled o1}'),
                   ('Crad', 'C', 'fragment a{C. labeled c1}')],
@@ -232,7 +238,7 @@ def run(ctx):
     ctx.coverage.update({
         'rule': 'molecules composed from templates per scheme vocabulary (gas: chains, branches, rings 3-7, alkenes incl. cis/trans, alkynes, carbonyls, ethers, '
                 'acids, aromatics incl. fused, radicals, N; surface: Pt/Ru adsorbates with 1-3 surface bonds) plus out-of-vocabulary molecules, for each '
-                'of the nine shipped schemes; plus three synthetic schemes (centre patterns overlapping late / early, unmatched atoms, chained and fractional remaps, a descriptor named like a group). distinct by (scheme, canonical SMILES); non-trivial = decomposed into >=2 descriptors',
+                'of the nine shipped schemes; plus four synthetic schemes (centre patterns overlapping late / early / under one centre name, unmatched atoms, chained and fractional remaps, a descriptor named like a group). distinct by (scheme, canonical SMILES); non-trivial = decomposed into >=2 descriptors',
         'histogram': dict(hist, descriptors_seen={k: len(v) for k, v in fired.items()}),
         'correspondence_cases': sum(len(v) for v in rows.values()), 'correspondence_mismatches': nbad})
 
